@@ -537,5 +537,6 @@ def run(ck):
     rule_output(ck)
     rule_units(ck)
     rule_index(ck)
-    from .c06 import rule_utils
+    from .c06 import rule_utils, rule_row_acceptance
     rule_utils(ck)       # the checker the algorithms rely on: no shortcut acceptance, every row, every period (rule ids C06.*)
+    rule_row_acceptance(ck, rid="C07.R8")
